@@ -202,10 +202,10 @@ def genotype(
             else:
                 profile = None
             sample = sam.Sample(gene, profile, sam_path, reference, debug)
-    except AldyException:
-        # the sample was refused before it got a name: the gene still gets its (empty) result line
+    except AldyException as ex:
+        # the sample was refused while it was loaded: the gene still gets its (empty) result line
         if is_simple:
-            name = os.path.basename(sam_path).split(".")[0]
+            name = getattr(ex, "sample_name", os.path.basename(sam_path).split(".")[0])
             print(name, gene.name, "", sep="\t", file=output_file)
         raise
     profile = sample.profile  # if loaded for a dump
